@@ -25,6 +25,7 @@ STRENGTHENED = {
  "C33-b": "C04 as first built; C33 after substituted-body forgeries joined the sync profile",
  "C31-b": "as first built (C03 reports the broken theorem only)",
  "C14-b": "after an exhaustive small-multiple grid through ECmult, direct XYZ.Add cases and crafted signatures with small related s/r, -m/r were added (also C10)",
+ "C28-b": "after decodable but structurally inconsistent transactions over real wallet unspents (33 mutations x 4 bases) were sent to the sign/verify/inject endpoints",
  "C22-b": "after the real readLoop was run on scripted connections (new verif hook gnet.VerifReadLoop)",
  "C07-b": "after the balance view (GetBalanceOfAddresses) joined the whole-state digest and the model",
 }
